@@ -426,7 +426,7 @@ def run_shard(shard, tier, seed, acc) -> None:
         for k in (1, 2, 3):
             for cmds in itertools.product(base_cmds, repeat=k):
                 head = rpc.enc_vt(list(cmds))  # no END anywhere
-                for tail in (b"", b"\x00" * 4, b"\x00" * 65536, (struct.pack("<HH", 0x55, 0)) * 1000, b"\xff" * 64):
+                for tail in (b"", b"\x00" * 4, b"\x00" * (65536 if k == 1 else 2048), (struct.pack("<HH", 0x55, 0)) * (1000 if k == 1 else 100), b"\xff" * 64):
                     if acc.too_many():
                         break
                     data = head + tail
